@@ -30,7 +30,7 @@ pub enum Case06 {
     Two { class: String, alias: String, alias_first: bool },
 }
 
-fn value_alphabet(ty: VariantType) -> Vec<Variant> {
+pub fn value_alphabet(ty: VariantType) -> Vec<Variant> {
     match ty {
         VariantType::Ref => vec![Variant::Ref(Ref::none())],
         VariantType::SharedString => vec![
@@ -43,7 +43,7 @@ fn value_alphabet(ty: VariantType) -> Vec<Variant> {
 
 /// declared (canonical) value type of a reachable property name, if it
 /// serializes and does not migrate
-fn declared_type(class: &str, prop: &str) -> Option<VariantType> {
+pub fn declared_type(class: &str, prop: &str) -> Option<VariantType> {
     match specdb::lookup(class, prop) {
         Lookup::Known(k) => match k.ser {
             Ser::Serializes | Ser::As { .. } => k.canonical_ty.variant_type(),
@@ -255,7 +255,7 @@ fn judge_dom(dom: &WeakDom, set: &BTreeSet<String>, tag: &str, what: &str) -> Ve
     out
 }
 
-fn canonical_of(class: &str, prop: &str) -> String {
+pub fn canonical_of(class: &str, prop: &str) -> String {
     match specdb::lookup(class, prop) {
         Lookup::Known(k) => k.canonical,
         _ => prop.to_owned(),
